@@ -61,6 +61,10 @@ def skeletons(tier):
             if n == 3 and sum(1 for o in seq if o[0] == 'packages') > 1:
                 continue
             out.append(list(seq))
+    # two skip lists followed by a registration (a skipped descendant of a skipped package)
+    for last in (('all', 0), ('package', 0, 0), ('package', 0, 1)):
+        out.append([('skip', 0), ('skip', 0), last])
+        out.append([last, ('skip', 0), ('skip', 0)])
     # beartyping blocks: enter/exit around 0..1 inner op, preceded by 0..1 op
     inner = [[], [('package', 0, 0)], [('package', 0, 1)], [('all', 0)], [('all', 1)]]
     pre = [[], [('all', 0)], [('all', 1)], [('package', 0, 0)], [('package', 0, 1)], [('skip', 0)]]
@@ -200,7 +204,9 @@ def run_real(ops, names, q, CONFS, HOOKABLE):
     from beartype.claw._package.clawpkgcontext import beartyping
     from beartype.claw._clawstate import claw_state, claw_lock
     from beartype.roar import BeartypeClawHookException
+    from beartype.claw._package.clawpkgtrie import PackagesTrieBlacklisted
     claw_state.reinit()
+    PackagesTrieBlacklisted.clear()      # the shared leaf singleton must not carry state across paths
     events = []
     cms = []
     try:
@@ -350,7 +356,9 @@ def replay_c06(p):
     HOOKABLE = [make_conf_hookable(c) for c in CONFS]
     # concrete model
     regs, skips, allc, stack = {}, [], None, []
+    from beartype.claw._package.clawpkgtrie import PackagesTrieBlacklisted
     claw_state.reinit()
+    PackagesTrieBlacklisted.clear()
     problems = []
     cms = []
     for i, op in enumerate(ops):
@@ -363,7 +371,7 @@ def replay_c06(p):
             elif op[0] == 'all':
                 beartype_all(conf=CONFS[op[1]])
             elif op[0] == 'skip':
-                beartype_package('pkzz_unrelated', conf=BeartypeConf(claw_skip_package_names=(names[op[1]],)))
+                beartype_package(f'pkzz_unrelated{i}', conf=BeartypeConf(claw_skip_package_names=(names[op[1]],)))
             elif op[0] == 'enter':
                 cm = beartyping(conf=CONFS[op[1]])
                 cm.__enter__()
@@ -386,7 +394,7 @@ def replay_c06(p):
                 allc = op[1]
         elif op[0] == 'skip':
             skips.append(names[op[1]])
-            regs.setdefault('pkzz_unrelated', None)
+            regs.setdefault(f'pkzz_unrelated{i}', None)
         elif op[0] == 'enter':
             stack.append(allc)
             allc = op[1]
